@@ -15,6 +15,7 @@ case the statement leaves open (an UNSEGMENTED packet arriving while a group of 
 open: does the group survive?) is accepted under either reading and under nothing else.
 """
 import io
+import logging
 import warnings
 
 from sim import factory
@@ -45,7 +46,8 @@ COMPONENTS = {
 ASSUMPTIONS = [
     "an UNSEGMENTED packet arriving while a group of the same APID is open is accepted under both readings (group "
     "survives / group is abandoned); everything else has exactly one accepted behaviour",
-    "warnings are required (any category, any text) only at arrivals the model drops with a warning: CONT/LAST with no "
+    "a 'warning' is a warnings.warn() of any category and text, or a WARNING-level log record of a space_packet_parser.xtce "
+    "logger; warnings are required only at arrivals the model drops with a warning: CONT/LAST with no "
     "open group and a LAST closing a group with a sequence gap; only in the one-arrival-per-recv configuration, where a "
     "warning is attributable to an arrival; all other warnings are unjudged",
     "outputs are compared by raw_data; the definition is header-only so decoded values are not in play",
@@ -368,6 +370,21 @@ def run(ch, render=False):
             pulled[0] += 1
             yield p_
     pk.ccsds_generator = counting
+    # "dropped with a warning": a warnings.warn() is what the code does today; a WARNING-level record on one of the
+    # decoder's loggers (space_packet_parser.xtce.*) is accepted as well, so that moving from warnings to logging
+    # would not be reported. The framer's own logger (trailing-bytes messages after a link cut) does not count.
+    class _Cap(logging.Handler):
+        def emit(self, record):
+            if record.levelno >= logging.WARNING and record.name.startswith("space_packet_parser.xtce"):
+                n_warn[0] += 1
+                warned_at.add(pulled[0] - 1)
+    cap_handler = _Cap(level=logging.WARNING)
+    lib_logger = logging.getLogger("space_packet_parser")
+    saved_disable = logging.root.manager.disable
+    saved_prop = lib_logger.propagate
+    logging.disable(logging.NOTSET)
+    lib_logger.addHandler(cap_handler)
+    lib_logger.propagate = False
     try:
         with warnings.catch_warnings():
             warnings.simplefilter("always")
@@ -402,6 +419,9 @@ def run(ch, render=False):
                     pass
     finally:
         pk.ccsds_generator = orig_gen
+        lib_logger.removeHandler(cap_handler)
+        lib_logger.propagate = saved_prop
+        logging.disable(saved_disable)
         if sock is not None:
             sock.close()
     per_arrival = pulled[0] == n_arr
